@@ -353,6 +353,24 @@ def _run(ck, tier):
     t0 = time.time()
     outs, sani = run_loader(ck, files + valid, "main")
     log("[C09] %d files loaded by the real loaders in child processes in %.1fs" % (len(files) + len(valid), time.time() - t0))
+    # deaths of the sanitizer runtime itself (mmap refused under memory pressure from other processes) or without any
+    # message are not outcomes of the loader: those files are loaded again
+    def runtime_death(f):
+        o = outs[f["id"]]
+        if o["outcome"] not in ("crash", "oom"):
+            return False
+        msgs = " ".join(m for _, m in sani.get(f["id"], []))
+        return "Failed to mmap" in msgs or "failed to allocate" in msgs or not sanitizer_kind(sani.get(f["id"], []))
+    for attempt in range(4):
+        retry = [f for f in files + valid if runtime_death(f)]
+        if not retry:
+            break
+        log("[C09] %d children died in the sanitizer runtime / without message: loaded again (pass %d)" % (len(retry), attempt + 2))
+        time.sleep(3)
+        o2, s2 = run_loader(ck, retry, "retry%d" % attempt, batch=20, nproc=6)
+        outs.update(o2)
+        for f in retry:
+            sani[f["id"]] = s2.get(f["id"], [])
     # a death (crash, time-out, memory) that the transcription of the reader does not predict is confirmed: the file is
     # run again alone with a longer alarm; when it passes alone, the files that the dead child had processed before it
     # are run again in one child (a death that needs its predecessors is a violation of its own kind, "crash-in-batch");
